@@ -16,6 +16,10 @@ P4a enumeration (spec -> impl): Gen_OptParse enumerates (table, mode, vector)
     on every vector and compares.
 P4b validation (impl -> spec): harness `random` records longer random vectors
     over a richer alphabet; Trace_OptParse validates every record.
+P4c getopts: Gen_Getopts enumerates (option string, vector) with the loop of
+    reports Getopts!GOLoop prescribes (and checks the ungrouping theorem);
+    harness `getopts` drives getopts::model::next and a real `while getopts`
+    loop in the simulated shell and compares.
 P2  class replay: Gen_OptSpell prints, for every catalogue invocation of every
     built-in (and the shell's command line, and a getopts loop), all equivalent
     spellings and malformed vectors; harness `classes` runs each in a fresh
@@ -322,6 +326,47 @@ def class_replay(tier, wd, rep, ev):
 
 
 # --------------------------------------------------------------------------
+def getopts_enumeration(tier, wd, rep, ev, only=None):
+    """P4a for the getopts built-in: every vector over Gen_Getopts!GTokens x option strings
+    on getopts::model::next (exhaustive) and through a real `while getopts` loop."""
+    maxlen, shelllen = (4, 3) if tier == "quick" else (5, 3)
+    gen = os.path.join(wd, "getopts.ndjson")
+    cfg = write_cfg(os.path.join(wd, "getopts.cfg"),
+                    f"SPECIFICATION Spec\nCONSTANTS\n  MaxLen = {maxlen}\n  ShellLen = {shelllen}\nINVARIANT Emit\n")
+    r = vlib.tlc("Gen_Getopts", cfg, workers=8, json_out=gen, timeout=2400)
+    vlib.tlc_must_pass(r, "Gen_Getopts (ungrouping theorem, enumeration)")
+    res = os.path.join(wd, "getopts.res.ndjson")
+    vlib.run_harness(PKG, ["getopts", "--in", gen, "--out", res], timeout=2400)
+    summary, found = None, False
+    for o in vlib.read_ndjson(res):
+        if o.get("summary"):
+            summary = o
+            continue
+        if only is not None:
+            found = found or (o["os"] == only["os"] and o["argv"] == only["argv"] and o["level"] == only["level"])
+            continue
+        key = {"phase": "getopts", "level": o["level"], "optstring": o["os"], "argv": " ".join(o["argv"])}
+        rep.violation(key, f"getopts {o['os']!r} over {o['argv']}: {o['level']} differs from Getopts!GOLoop: expected "
+                           f"{json.dumps(o['expected'])[:500]}, observed {json.dumps(o['observed'])[:500]}",
+                      {"phase": "getopts", "os": o["os"], "argv": o["argv"], "level": o["level"]})
+    if summary is None:
+        raise vlib.ToolError("harness getopts produced no summary")
+    os.remove(gen)
+    os.remove(res)
+    if only is not None:
+        return found
+    vlib.log(f"[p4a-getopts] {summary['vectors']} vectors <= {maxlen} x {len(summary['optstrings'])} option strings on "
+             f"getopts::model::next ({summary['reports']} reports, {summary['error_reports']} of them `?`/`:`), "
+             f"{summary['shell_runs']} `while getopts` loops in the simulated shell; {summary['mismatches']} mismatches "
+             f"(TLC {r.wall:.1f}s)")
+    ev["gen_states"] += r.distinct
+    ev["samples"] += summary["samples"][:1]
+    ev["getopts"] = {k: summary[k] for k in ("vectors", "shell_runs", "mismatches", "reports", "error_reports", "optstrings")}
+    ev["getopts"]["maxlen"] = maxlen
+    return summary["vectors"] + summary["shell_runs"]
+
+
+# --------------------------------------------------------------------------
 def run(tier):
     t0 = time.time()
     wd = vlib.workdir(PID)
@@ -333,8 +378,9 @@ def run(tier):
     totals = enumeration(tier, wd, rep, ev, rng)
     nrand = random_validation(tier, wd, rep, ev)
     nclass = class_replay(tier, wd, rep, ev)
+    ngetopts = getopts_enumeration(tier, wd, rep, ev)
     rc = rep.finish()
-    evaluations = totals["vectors"] + nrand + nclass
+    evaluations = totals["vectors"] + nrand + nclass + ngetopts
     vlib.write_evidence(PID, tier, {
         "states": ev["states"],
         "transitions": ev["transitions"],
@@ -342,14 +388,17 @@ def run(tier):
         "samples": ev["samples"],
         "evaluations": evaluations,
         "distinct_nontrivial": totals["vectors"] - (totals["accepted"] - totals["accepted_with_options"])
-                               + ev["classes"]["vectors"] + ev["classes"]["malformed_vectors"],
+                               + ev["classes"]["vectors"] + ev["classes"]["malformed_vectors"]
+                               + ev["getopts"]["vectors"] + ev["getopts"]["shell_runs"],
         "rule": "enumerated (table, mode, vector) triples that are rejected or contain at least one option, "
-                "plus every spelling / malformed vector run through a real built-in",
+                "plus every spelling / malformed vector run through a real built-in, plus every getopts vector "
+                "(model and shell loop)",
         "exhaustive": True,
         "enumeration": ev["enum"],
         "generator_states": ev["gen_states"],
         "random": ev["random"],
         "class_replay": ev["classes"],
+        "getopts": ev["getopts"],
         "tlc_action_coverage": ev.get("machine_action_coverage", {}),
         "actions_not_exercised": ev.get("machine_actions_not_exercised", []),
         "invocations_checked_spellings": ev.get("invocations_checked_spellings", 0),
@@ -362,6 +411,8 @@ def run(tier):
         "the text of diagnostics is not",
         "set: `-` separator and `set --` clearing the parameters (documented) are excluded from the classes; "
         "kill, set and the shell command line are excluded from the portable-mode pass",
+        "getopts: arguments of the form --x... (not exactly --) are outside the Utility Syntax Guidelines and not generated; "
+        "the exit status at the end of options is only observed through the loop ending",
         "TLC 1.8.0 and the JSON community module are trusted",
     ])
     return rc
@@ -372,7 +423,11 @@ def replay(path):
         obj = json.load(f)
     rp = obj["replay"]
     wd = vlib.workdir(PID + "-replay")
-    if rp["phase"] in ("enum", "random"):
+    if rp["phase"] == "getopts":
+        still = getopts_enumeration("quick", wd, None, {"gen_states": 0, "samples": []}, only=rp)
+        print("still differs" if still else "no longer differs (or vector outside the quick bounds)")
+        ok = not still
+    elif rp["phase"] in ("enum", "random"):
         src = os.path.join(wd, "in.ndjson")
         with open(src, "w") as f:
             f.write(json.dumps({"specs": rp["specs"], "m": rp["m"], "text": rp["text"]}) + "\n")
